@@ -28,7 +28,7 @@ READER_ALLOW = {
     ("libwild::gc_stats::write_gc_stats", "std::fs::OpenOptions::open"): "gc-stats output",
 }
 
-CONTAINER_FNS = {"std::slice::<impl [T]>::into_vec", "std::boxed::Box::new", "std::sync::Arc::new", "std::vec::from_elem",
+CONTAINER_FNS = {"std::slice::into_vec", "alloc::slice::into_vec", "std::boxed::Box::new", "std::sync::Arc::new", "std::vec::from_elem",
                  "std::boxed::box_new", "std::boxed::box_assume_init_into_vec_unsafe", "std::mem::take", "std::mem::replace"}
 PUSHERS = {"std::vec::Vec::push", "std::vec::Vec::append", "std::vec::Vec::extend_from_slice", "std::iter::Extend::extend",
            "<std::vec::Vec as std::iter::Extend>::extend", "std::vec::Vec::insert"}
